@@ -65,11 +65,16 @@ pub fn load_known() -> Result<Vec<Known>, String> {
 }
 
 fn matches_known<'a>(known: &'a [Known], prop: &str, v: &Violation) -> Option<&'a Known> {
+    // for allocation deaths the frame that called the allocating function is known too: a known
+    // allocation stays known when its statement was moved into a helper function (one level)
+    let caller_fn = v.msg.rfind("[caller=").map(|i| site_fn(v.msg[i + 8..].trim_end_matches(']'))).unwrap_or_default();
     known.iter().find(|k| {
         k.status == "open"
             && k.property == prop
             && k.class == v.class
-            && ((!k.origin.is_empty() && k.origin == v.origin) || (!k.origin_fn.is_empty() && k.origin_fn == site_fn(&v.origin)))
+            && ((!k.origin.is_empty() && k.origin == v.origin)
+                || (!k.origin_fn.is_empty() && k.origin_fn == site_fn(&v.origin))
+                || (v.class == "alloc" && !k.origin_fn.is_empty() && !caller_fn.is_empty() && k.origin_fn == caller_fn))
     })
 }
 
@@ -113,10 +118,11 @@ fn parse_death(line: &str) -> Option<(u64, String, String, String, String)> {
             let size: u64 = it.next()?.parse().ok()?;
             let live: u64 = it.next()?.parse().ok()?;
             let sites = it.next().unwrap_or("?");
-            let mut s = sites.splitn(2, '\t');
+            let mut s = sites.splitn(3, '\t');
             let origin = s.next().unwrap_or("?").to_string();
             let client = s.next().unwrap_or("").trim_end().to_string();
-            Some((idx, "alloc".into(), origin, client, format!("allocation of {} bytes would bring the live heap to {} bytes, over the proportional budget", size, live)))
+            let caller = s.next().unwrap_or("").trim_end().to_string();
+            Some((idx, "alloc".into(), origin, client, format!("allocation of {} bytes would bring the live heap to {} bytes, over the proportional budget [caller={}]", size, live, caller)))
         }
         "H" => {
             let mut it = rest.splitn(2, ' ');
